@@ -150,7 +150,7 @@ class Run:
             self.notes.append("forbidden tokens in Lean sources: " + "; ".join(bad[:5]))
             self.discharged = []
             return False
-        if not self.discharged:
+        if not self.discharged or self.proof_broken:
             return False
         os.makedirs(os.path.join(BUILD, "audit"), exist_ok=True)
         af = os.path.join(BUILD, "audit", self.pid + ".lean")
@@ -298,8 +298,9 @@ class Run:
                         why = oracle(c, i)
                     except Exception as e:   # an oracle crash must not hide anything
                         why = "oracle error: %r" % (e,)
+                known = self.is_known(name, c, i, why) if self.known else False
                 if i != m or why:
-                    if self.is_known(name, c, i, why):
+                    if known:
                         continue
                     acov["mismatches"] += 1 if i != m else 0
                     if reported < 5:
